@@ -216,6 +216,11 @@ class ABCTune(object):
       'a#': music_pb2.NoteSequence.KeySignature.A_SHARP,
       'bb': music_pb2.NoteSequence.KeySignature.B_FLAT,
       'b': music_pb2.NoteSequence.KeySignature.B,
+      # Enharmonic tonics that occur in SIG_TO_KEYS (e.g. Cb major, E# phrygian).
+      'cb': music_pb2.NoteSequence.KeySignature.B,
+      'fb': music_pb2.NoteSequence.KeySignature.E,
+      'e#': music_pb2.NoteSequence.KeySignature.F,
+      'b#': music_pb2.NoteSequence.KeySignature.C,
   }
 
   SHARPS_ORDER = 'FCGDAEB'
